@@ -59,6 +59,9 @@ func c16Cases(tier string, seed int64) []core.Case {
 			return c16Run(ctx, t, false)
 		}})
 	}
+	for i := range cases {
+		cases[i].Run = guarded("C16", cases[i].Run)
+	}
 	return cases
 }
 
@@ -210,6 +213,25 @@ func checkStat(s *wire.Stat, fi os.FileInfo, base string, dotu bool) string {
 	}
 	if s.Mode&0o777 != uint32(fi.Mode().Perm()) {
 		return fmt.Sprintf("permission bits %o, host %o", s.Mode&0o777, fi.Mode().Perm())
+	}
+	// the whole mode word: nine permission bits, DMDIR, and — in 9P2000.u only — the Unix kinds and set-id bits of
+	// the host object; a connection that negotiated plain 9P2000 sees none of the .u bits whatever the server can speak
+	want := uint32(fi.Mode().Perm())
+	if fi.IsDir() {
+		want |= 0x80000000
+	}
+	if dotu {
+		for _, b := range []struct {
+			host os.FileMode
+			bit  uint32
+		}{{os.ModeSymlink, 0x02000000}, {os.ModeSocket, 0x00100000}, {os.ModeNamedPipe, 0x00200000}, {os.ModeDevice, 0x00800000}, {os.ModeSetuid, 0x00080000}, {os.ModeSetgid, 0x00040000}} {
+			if fi.Mode()&b.host != 0 {
+				want |= b.bit
+			}
+		}
+	}
+	if s.Mode != want {
+		return fmt.Sprintf("mode word %#x, the host object in this dialect is %#x", s.Mode, want)
 	}
 	if !fi.IsDir() && s.Length != uint64(fi.Size()) {
 		return fmt.Sprintf("length %d, host %d", s.Length, fi.Size())
